@@ -18,6 +18,8 @@ PROPS = ["Bo", "Bg", "Bw", "Rs", "Rv", "mu_o", "mu_g", "mu_w"]
 def grid(kind, seed=0):
     if kind == "uniform":
         return np.arange(100.0, 6000.0 + 1, 10.0)
+    if kind == "high":  # beyond the shipped tables' range
+        return np.arange(8000.0, 15001.0, 50.0)
     if kind == "integer":  # an integer-typed pressure column (np.arange(100, 6001, 20))
         return np.arange(100, 6001, 20, dtype=np.int64)
     if kind == "geometric":
